@@ -42,3 +42,19 @@ pub fn rom_offset(addr: usize, bank: usize) -> usize {
         bank * 0x4000 + (addr & 0x3fff)
     }
 }
+
+/// RefBus initialised with the same storage contents as a freshly built replica
+pub fn model_of(case: &Case, m: &mut dyn Machine) -> crate::model::bus::RefBus {
+    use crate::cart::{ram_bytes, rom_banks};
+    let cart_type = case.get("cart_type") as u8;
+    let rom_code = case.get("rom_code") as u8;
+    let ram_code = case.get("ram_code") as u8;
+    let mut b = crate::model::bus::RefBus::new(m.rom().to_vec(), cart_type, rom_banks(rom_code), ram_bytes(ram_code));
+    b.vram.copy_from_slice(m.vram());
+    let n = b.cram.len().min(m.cram().len());
+    b.cram[..n].copy_from_slice(&m.cram()[..n]);
+    b.wram.copy_from_slice(m.wram());
+    b.oam.copy_from_slice(m.oam());
+    b.hram.copy_from_slice(m.hram());
+    b
+}
